@@ -17,6 +17,8 @@ CONSTANTS MaxStages,     \* 1..3
           X100Skip,      \* limits for which the class x100 is not generated (keeps the quick tier away from mid-sized bombs)
           StreamLimits,  \* set of MaxStreamBytes values
           CountLimits,   \* set of limits for the count family
+          IndexLimits,   \* limits (MaxXRefEntries) for the multi subsection /Index cases
+          IndexParts,    \* numbers of subsections
           Containers, Emit
 
 VARIABLE cfg
@@ -42,23 +44,37 @@ StreamCases ==
       (c.cls = "x100" => c.lim <= X100MaxN)}
 
 CountKinds == {"size", "index", "objstmN", "objstmProlog", "objstmFirst", "nesting", "imagepx"}
-CountCases == [fam : {"count"}, kind : CountKinds, cls : Classes, lim : CountLimits, strict : BOOLEAN]
+CountCases == [fam : {"count"}, kind : CountKinds, cls : Classes, lim : CountLimits, strict : BOOLEAN, parts : {1}, arr : {""}]
+
+(* /Index of an xref stream with several subsections: parts subsections of about total/parts entries each (every   *)
+(* one within the limit unless the total is far beyond it), repeated (all start at 0), overlapping (each starts   *)
+(* in the middle of its predecessor) or adjacent.  The limit bounds the total number of announced entries.        *)
+IndexArrangements == {"repeat", "overlap", "adjacent"}
+IndexPartCases == [fam : {"count"}, kind : {"indexparts"}, cls : Classes, lim : IndexLimits, strict : BOOLEAN,
+                   parts : IndexParts, arr : IndexArrangements]
 
 Target(c) == IF c.fam = "count" THEN ClassValue(c.cls, c.lim) ELSE ClassValue(c.cls, c.lim)
 
-Init == cfg \in DecodeCases \cup StreamCases \cup CountCases
+Init == cfg \in DecodeCases \cup StreamCases \cup CountCases \cup IndexPartCases
 Next == UNCHANGED cfg
 Spec == Init /\ [][Next]_cfg
 
 (* sanity of the generator itself *)
 TargetBeyondIffClass == Beyond(Target(cfg), cfg.lim) <=> cfg.cls \in {"above", "x100"}
 
+(* derived flows (as "derive>consume" names) are generated for the single stage pipelines: the migration of a    *)
+(* stream does not depend on how many filters it has                                                             *)
+RECURSIVE FlowSeq(_)
+FlowSeq(S) == IF S = {} THEN <<>> ELSE LET f == CHOOSE x \in S : TRUE IN <<f[1] \o ">" \o f[2]>> \o FlowSeq(S \ {f})
 Out(c) == [fam |-> c.fam, cls |-> c.cls, lim |-> c.lim, target |-> Target(c), beyond |-> Beyond(Target(c), c.lim),
            pipe |-> IF c.fam = "count" THEN <<>> ELSE c.pipe,
            pred |-> IF c.fam = "decode" THEN c.pred ELSE 0,
            cont |-> IF c.fam = "count" THEN "" ELSE c.cont,
            lenmode |-> IF c.fam = "stream" THEN c.lenmode ELSE "",
            kind |-> IF c.fam = "count" THEN c.kind ELSE "",
-           strict |-> IF c.fam = "count" THEN c.strict ELSE FALSE]
+           strict |-> IF c.fam = "count" THEN c.strict ELSE FALSE,
+           parts |-> IF c.fam = "count" THEN c.parts ELSE 1,
+           arr |-> IF c.fam = "count" THEN c.arr ELSE "",
+           flows |-> IF c.fam = "decode" /\ Len(c.pipe) = 1 THEN FlowSeq(DerivedFlows(c.cont)) ELSE <<>>]
 EmitCase == Emit => PrintT(<<"CASE", ToJson(Out(cfg))>>)
 =============================================================================
